@@ -130,6 +130,22 @@ CHECKS = {
              "fault - runs all three actions in order and returns the checked text.",
         note="Outside: LLM provider failures (excluded by the property), faults inside the library's own LLM actions.",
         ref="4/C03"),
+    "C11": dict(
+        text="(b) For 16 programs (the C06/C09 catalogue plus programs whose variables hold nested lists/dicts, floats, booleans, strings, a regex and a comparison flow parameter, a dict with int "
+             "keys, and references to events/actions/flows used again after the cut): the state after the catalogue prefix and 0-1 (thorough: every cut of 3-4) further events is serialised with the "
+             "real state_to_json, parsed back with json_to_state, and for every symbolic continuation (event selectors, payload offsets, tie-breaks) the restored state emits the same outgoing events "
+             "as the live one up to fresh identifiers; serialisation must not raise. (c) a 10 s idle gap at any position never changes the outgoing events. (a) decode(encode(v)) == v with types "
+             "and dict aliasing preserved for pairs of values over 10 kinds, also through real JSON text.",
+        note="The history before the cut is enumerated (made concrete) so that the state at the cut is a native object for the C-level JSON encoder; the continuation is symbolic. Outside: symbolic values "
+             "inside the serialised state, LLMRails level.",
+        ref="4/C11"),
+    "C16": dict(
+        text="Through the real LLMRails.generate_async with the `rails` generation option: all 15 non-empty subsets of {input, dialog, retrieval, output} in list and dict form, 1 (thorough 2) input "
+             "and output rails with symbolic accept/reject/rewrite verdicts, one retrieval rail, a bot message supplied exactly when dialog is off and output is on: on every path the reply, the "
+             "sequence of rail actions and LLM calls, and log.activated_rails (input/output entries, order, stop flag on exactly the blocking rail) equal a reference table written from the statement; "
+             "disabled categories never invoke their actions and the LLM is called only by dialog rails.",
+        note="Colang 1.0 only (options are not supported for 2.x by design). Texts are concrete markers. Outside: selecting individual rails by name.",
+        ref="4/C16"),
 }
 
 NOT_APPLICABLE = {
